@@ -239,11 +239,11 @@ class RoutingPolicyGenerator(PartialGenerator, ABC):
     ) -> Iterator[Sequence[str]]:
         if action.value.replaced is not None:
             raise NotImplementedError("Extcommunity_soo replace is not supported for huawei")
+        if action.value.removed:
+            raise NotImplementedError("Extcommunity_soo remove is not supported for huawei")
         if action.value.added:
             members = [f"rt {m}" for name in action.value.added for m in communities[name].members]
             yield "apply", "extcommunity", *members, "additive"
-        if action.value.removed:
-            raise NotImplementedError("Extcommunity_soo remove is not supported for huawei")
 
     def _huawei_render_ext_community_members(
             self, comm_type: CommunityType, members: list[str]
@@ -276,26 +276,30 @@ class RoutingPolicyGenerator(PartialGenerator, ABC):
                 )
 
             members = group_community_members(communities, action.value.replaced)
+            if CommunityType.SOO in members:
+                raise NotImplementedError(
+                    "Cannot set extcommunity soo on huawei",
+                )
             for community_type, replaced_members in members.items():
-                if community_type is CommunityType.SOO:
-                    raise NotImplementedError(
-                        "Cannot set extcommunity soo on huawei",
-                    )
                 rendered_memebers = self._huawei_render_ext_community_members(community_type, replaced_members)
                 yield "apply", "extcommunity", *rendered_memebers
+        if action.value.removed:
+            raise NotImplementedError("Cannot remove extcommunity on huawei")
         if action.value.added:
             members = group_community_members(communities, action.value.added)
             for community_type, added_members in members.items():
                 rendered_memebers = self._huawei_render_ext_community_members(community_type, added_members)
                 yield "apply", "extcommunity", *rendered_memebers, "additive"
-        if action.value.removed:
-            raise NotImplementedError("Cannot remove extcommunity on huawei")
 
     def _huawei_then_as_path(
             self,
             device: Any,
             action: SingleAction[AsPathActionValue],
     ) -> Iterator[Sequence[str]]:
+        if action.value.expand:
+            raise RuntimeError("as_path.expand is not supported for huawei")
+        if action.value.expand_last_as:
+            raise RuntimeError("as_path.expand_last_as is not supported for huawei")
         if action.value.set is not None:
             if action.value.prepend:
                 raise NotImplementedError(
@@ -307,13 +311,9 @@ class RoutingPolicyGenerator(PartialGenerator, ABC):
                 yield "apply", "as-path", "none overwrite"
         if action.value.prepend:
             yield "apply as-path", *action.value.prepend, "additive"
-        if action.value.expand:
-            raise RuntimeError("as_path.expand is not supported for huawei")
         if action.value.delete:
             for path_item in action.value.delete:
                 yield "apply as-path", path_item, "delete"
-        if action.value.expand_last_as:
-            raise RuntimeError("as_path.expand_last_as is not supported for huawei")
 
     def _huawei_then(
             self,
